@@ -318,8 +318,12 @@ fn payload_text(case: &Value, off: &Offsets, now: i64, nonce: u64, pad: usize) -
         "2" => m.push(("ver".into(), "2".into())),
         "0" => m.push(("ver".into(), "0".into())),
         "str" => m.push(("ver".into(), "\"1\"".into())),
+        "str2" => m.push(("ver".into(), "\"2\"".into())),
         "null" => m.push(("ver".into(), "null".into())),
-        "float" => m.push(("ver".into(), "1.0".into())),
+        "bool" => m.push(("ver".into(), "true".into())),
+        "float" => m.push(("ver".into(), "1.5".into())),
+        "arr" => m.push(("ver".into(), "[1]".into())),
+        "obj" => m.push(("ver".into(), "{}".into())),
         _ => m.push(("ver".into(), "-1".into())),
     }
     match f(case, "iss") {
@@ -830,7 +834,11 @@ fn extract(tok: &str, cfg: &str, keys: &Keys, now: i64) -> Value {
                 let ver = match m.get("ver") {
                     None => "absent",
                     Some(Value::Null) => "null",
-                    Some(Value::String(_)) => "str",
+                    Some(Value::String(x)) if x == "1" => "str",
+                    Some(Value::String(_)) => "str2",
+                    Some(Value::Bool(_)) => "bool",
+                    Some(Value::Array(_)) => "arr",
+                    Some(Value::Object(_)) => "obj",
                     Some(v) if v.is_u64() => match v.as_u64() {
                         Some(1) => "1",
                         Some(0) => "0",
@@ -839,7 +847,8 @@ fn extract(tok: &str, cfg: &str, keys: &Keys, now: i64) -> Value {
                     },
                     Some(v) if v.is_i64() => "neg",
                     Some(v) if v.is_f64() => {
-                        if v.as_f64() == Some(1.0) { "float" } else { "unk" }
+                        // 1.0 is numerically the supported version: outside the abstract domain (latitude)
+                        if v.as_f64() == Some(1.0) { "unk" } else { "float" }
                     }
                     _ => "unk",
                 };
@@ -971,8 +980,12 @@ fn random_token(rng: &mut Rng, keys: &Keys, now: i64) -> String {
     }
     let mut p = serde_json::Map::new();
     let v1 = rng.chance(1, 2);
+    let odd_vers = [json!(2), json!(0), json!("1"), json!("2"), json!(3), json!(1.5), json!(1.0), json!(-1), Value::Null, json!(true), json!([1]), json!({})];
     if v1 {
-        p.insert("ver".into(), if rng.chance(9, 10) { json!(1) } else { rng.pick(&[json!(2), json!(0), json!("1"), json!(3), json!(1.0), json!(-1), Value::Null]).clone() });
+        p.insert("ver".into(), if rng.chance(9, 10) { json!(1) } else { rng.pick(&odd_vers).clone() });
+    } else if rng.chance(1, 6) {
+        // a v0-shaped token that additionally carries a `ver` which is not a supported version number
+        p.insert("ver".into(), rng.pick(&odd_vers).clone());
     }
     let drop = |rng: &mut Rng| rng.chance(1, 12);
     if v1 && !drop(rng) {
@@ -1135,6 +1148,53 @@ async fn record(evp: &str, sump: &str) {
     std::fs::write(sump, serde_json::to_string(&json!({"n": n, "accepted": acc, "rejected": rej, "fully_classified": classified})).unwrap()).unwrap();
 }
 
+// ------------------------------------------------------------------------------------------
+// reuse: the SAME token string presented twice to the SAME verifier instance, once inside its
+// validity (+ leeway) window and again after the window has ended (a verifier that remembers
+// verified strings must still re-check the time).  Real time: the tokens are built already expired
+// by 35 s (inside the 60 s leeway), so ~31 s of waiting put the second presentation >= 5 s beyond
+// exp + leeway; the first presentation is >= 5 s inside the window if it happens within 20 s.
+// ------------------------------------------------------------------------------------------
+async fn reuse(outp: &str) {
+    let env = make_env().await;
+    let off = Offsets { exp: json!({"lee": -35}), nbf: json!({"past": -3600}) };
+    let base0 = json!({"cfg":"static","parts":"3","hb64":"ok","pb64":"ok","sb64":"ok","hjson":"obj","pjson":"obj","alg":"EdDSA","typ":"JWT",
+        "kid":"absent","hextra":"none","sig":"static","ver":"absent","pssid":"v0","exp":"lee","nbf":"absent","iat":"absent","jti":"ok",
+        "iss":"absent","aud":"absent","pextra":"none"});
+    let mut cases = vec![];
+    for (cfg, kid, sig) in [("static", "absent", "static"), ("jwks", "known", "jwks")] {
+        let mut c0 = base0.clone();
+        c0["cfg"] = json!(cfg);
+        c0["kid"] = json!(kid);
+        c0["sig"] = json!(sig);
+        let mut c1 = c0.clone();
+        for (k, v) in [("ver", "1"), ("pssid", "v1"), ("nbf", "past"), ("iat", "ok"), ("iss", "ssr"), ("aud", "snap")] {
+            c1[k] = json!(v);
+        }
+        cases.push(c0);
+        cases.push(c1);
+    }
+    let built_at = now_secs();
+    let mut items = vec![];
+    for (i, case) in cases.iter().enumerate() {
+        if let Some((tok, exp_abs)) = concretise(case, &off, &env.keys, built_at, 9000 + i as u64, 0) {
+            let first = observe(&env, f(case, "cfg"), &tok, exp_abs).await;
+            items.push((case.clone(), tok, exp_abs.unwrap_or(built_at - 35), first, now_secs()));
+        }
+    }
+    // wait until >= 6 s after exp + leeway of every token (verifier clock = system time)
+    let until = built_at - 35 + 60 + 6;
+    while now_secs() < until {
+        tokio::time::sleep(Duration::from_millis(250)).await;
+    }
+    let mut out = vec![];
+    for (case, tok, exp, first, t1) in items {
+        let second = observe(&env, f(&case, "cfg"), &tok, Some(exp)).await;
+        out.push(json!({"case": case, "token": tok, "exp": exp, "first": first, "first_at": t1, "second": second, "second_at": now_secs(), "leeway": 60}));
+    }
+    std::fs::write(outp, serde_json::to_string(&json!({"built_at": built_at, "items": out})).unwrap()).unwrap();
+}
+
 #[tokio::main(flavor = "multi_thread", worker_threads = 2)]
 async fn main() {
     let a: Vec<String> = std::env::args().collect();
@@ -1142,6 +1202,7 @@ async fn main() {
     match a.get(1).map(|s| s.as_str()) {
         Some("replay") if a.len() == 4 => replay(&a[2], &a[3]).await,
         Some("record") if a.len() == 4 => record(&a[2], &a[3]).await,
+        Some("reuse") if a.len() == 3 => reuse(&a[2]).await,
         _ => {
             eprintln!("usage: snaptoken replay <cells.ndjson> <out.ndjson> | record <events.ndjson> <summary.json>");
             std::process::exit(2);
